@@ -106,4 +106,4 @@ NOT_APPLICABLE = {
     'C16': 'set semantics of hand-written case splits over namespace constraints can only be decided by evaluating them over the '
            'enumerated domain (execution); shape rules are blind to the defect quoted in the property',
 }
-FIX_COMMITS = ['0d39fae', 'ee7fbf0', 'ec74ff3', '0116491', '72bb2c6', '4feb9ab', '7a4e62d', '30a94f5', '6402c4d', 'ecfd2cd', '4061701', '189c2b3', '32b357f', '55a609d', 'a42390f', '47eaeb4']
+FIX_COMMITS = ['0d39fae', 'ee7fbf0', 'ec74ff3', '0116491', '72bb2c6', '4feb9ab', '7a4e62d', '30a94f5', '6402c4d', 'ecfd2cd', '4061701', '189c2b3', '32b357f', '55a609d', 'a42390f', '47eaeb4', 'f5ca257']
